@@ -24,6 +24,11 @@ def b(x):
     return "true" if x else "false"
 
 
+def is_req(o):
+    """a Request operation: plain, or `mreq` = PlanFlush + a Request arriving while that flush waits for its next column set"""
+    return o["t"] in ("req", "mreq")
+
+
 def runs(col):
     return coq_list(["(%d%%N,%d%%N)" % (r[0], r[1]) for r in (col or [])])
 
@@ -68,7 +73,7 @@ def infer_picks(c, ws, base):
     picks = {}
     evs = [(i, e) for i, l in enumerate(c.get("obs") or []) for e in (l or [])]
     for i, o in enumerate(c["ops"]):
-        if o["t"] != "req":
+        if not is_req(o):
             continue
         s = o["s"]
         par = max(1, c["svcs"][s].get("par") or 1)
@@ -99,6 +104,10 @@ def case_to_coq(c):
             k = c["svcs"][o["s"]]["kind"]
             reqs[o["p"]] = (k, o.get("cols"))
             ops.append("OReq %d %s %d%%N %s (%d)%%Z" % (picks[o["p"]], KIND[k], o["p"], raw_req_coq(k, o.get("cols")), o.get("sz", 0)))
+        elif o["t"] == "mreq":
+            k = c["svcs"][o["s"]]["kind"]
+            reqs[o["p"]] = (k, o.get("cols"))
+            ops.append("OMidReq %d %s %d%%N %s (%d)%%Z" % (picks[o["p"]], KIND[k], o["p"], raw_req_coq(k, o.get("cols")), o.get("sz", 0)))
         elif o["t"] == "plan":
             s = o["s"]
             par = max(1, c["svcs"][s].get("par") or 1)
@@ -112,12 +121,17 @@ def case_to_coq(c):
             ops.append("ORet %d %s" % (o["s"], b(o.get("ok"))))
         elif o["t"] == "stop":
             ops.append("OStop %d" % base[o["s"]])
-    sizes = {o["p"]: o.get("sz", 0) for o in c["ops"] if o["t"] == "req"}
+    sizes = {o["p"]: o.get("sz", 0) for o in c["ops"] if is_req(o)}
     obs = []
     for evs in (c.get("obs") or []):
         l = []
         for e in (evs or []):
             t = e["t"]
+            if t in ("req", "res") and e["p"] not in reqs:
+                # an event about a promise no operation of the script created: no model event can equal it (a mismatch, not an exception)
+                reqs[e["p"]] = (ws[0][0], [])
+                picks.setdefault(e["p"], 0)
+                sizes.setdefault(e["p"], 0)
             if t == "req":
                 k, cols = reqs[e["p"]]
                 imm = "None" if e.get("imm") is None else "(Some %s)" % b(e["imm"])
@@ -141,7 +155,7 @@ def case_to_coq(c):
     dials = coq_list([coq_list([b(x) for x in ((dl[i] if i < len(dl) else None) or [])]) for i in range(len(ws))])
     own = []
     for o in c["ops"]:
-        if o["t"] == "req":
+        if is_req(o):
             seen = set()
             for col in norm_cols(c["svcs"][o["s"]]["kind"], o.get("cols")):
                 for r in col:
@@ -183,12 +197,54 @@ def eval_cases(ck, name, cases):
     return m, v1, v2, out
 
 
+ACT_NAMES = {0: "Request(promise %d) served by worker %d", 1: "PlanFlush / timer: worker %d planned", 2: "worker %d dials: %s",
+             3: "ATake worker %d: FIRST critical section of the swap -- waiting promises and size taken, timer re-armed",
+             4: "AInstall worker %d: SECOND critical section -- columns as they are NOW become the portion, fresh columns installed",
+             5: "worker %d calls Do with its portion", 6: "Do of worker %d returns: %s", 7: "Stop worker %d", 8: "ping of worker %d fails", 9: "other"}
+
+
+def diagnose_variant(ck, name, case):
+    """Is what was observed on this script the run of the refuted TWO-STEP-SWAP variant of the model (model/IngestSwap2.v: swapBuffers as two
+    critical sections, the request of an `mreq` operation served between them)?  Returns None when it is not (or the script has no mreq),
+    else the variant's action sequence -- the interleaving that explains the observation (theorem two_step_swap_refuted)."""
+    if not any(o["t"] == "mreq" for o in case["ops"]):
+        return None
+    txt = (HEADER + "Definition c : case :=\n  " + case_to_coq(case) + ".\n"
+           "Definition VE := Eval vm_compute in variant_explains c.\nPrint VE.\n"
+           "Definition VA := Eval vm_compute in variant_actions c.\nPrint VA.\n"
+           "Definition MM := Eval vm_compute in model_mismatch c.\nPrint MM.\n")
+    rc, out = ck.coq_eval(name, txt)
+    flat = " ".join(out.split())
+    if rc != 0 or not re.search(r"VE = true", flat):
+        return None
+    m = re.search(r"VA = \[(.*?)\]\s*: list", flat)
+    acts = []
+    for what, w, arg in re.findall(r"\(\s*(\d+)(?:%nat)?,\s*(\d+)(?:%nat)?,\s*(\d+)(?:%N)?\s*\)", m.group(1) if m else ""):
+        what, w, arg = int(what), int(w), int(arg)
+        if what == 0:
+            acts.append(ACT_NAMES[0] % (arg, w))
+        elif what in (2, 6):
+            acts.append(ACT_NAMES[what] % (w, "accepted" if arg else "refused"))
+        elif what == 9:
+            acts.append(ACT_NAMES[9])
+        else:
+            acts.append(ACT_NAMES[what] % w)
+    win = [i for i, a in enumerate(acts) if a.startswith("ATake")]
+    for i in win:
+        if i + 1 < len(acts) and acts[i + 1].startswith("Request"):
+            acts[i + 1] += "   <-- IN THE WINDOW: its rows join the columns the swap hands out, its promise is filed for the NEXT block"
+    return {"explained_by": "model/IngestSwap2.v: the observations of this script are exactly the run of the two-step-swap variant (variant_explains = true), "
+                            "not of the model (model_mismatch = %s); props/C02.v two_step_swap_refuted, props/C01.v ack_sound_two_step_swap_refuted"
+                            % ("true" if re.search(r"MM = true", flat) else "false"),
+            "action_sequence": acts}
+
+
 FRESH = set()      # ids of the level-1 cases on which fresh_run (C02's freshness hypothesis) holds
 FRESH2 = set()     # ... level-2 cases
 
 
 def case_weight(c):
-    return sum(sum(r[1] for col in (o.get("cols") or []) for r in (col or [])) for o in c["ops"] if o["t"] == "req")
+    return sum(sum(r[1] for col in (o.get("cols") or []) for r in (col or [])) for o in c["ops"] if is_req(o))
 
 
 def shard_cases(cases, max_cells=400000, max_n=150):
@@ -261,7 +317,7 @@ def load_corpus(ck, cmd, pid, fname, base, extra=()):
 
 def nontrivial(c):
     """a script is non-trivial when at least two requests carrying rows were submitted, a block was sent and a Do returned"""
-    nreq = sum(1 for o in c["ops"] if o["t"] == "req" and any(r[1] > 0 for col in (o.get("cols") or []) for r in (col or [])))
+    nreq = sum(1 for o in c["ops"] if is_req(o) and any(r[1] > 0 for col in (o.get("cols") or []) for r in (col or [])))
     evs = [e for l in (c.get("obs") or []) for e in (l or [])]
     return nreq >= 2 and any(e["t"] == "send" for e in evs) and any(e["t"] == "done" for e in evs)
 
@@ -340,7 +396,7 @@ def run_level1(ck, pid):
         mism += m
         v1 += a
         v2 += b2
-    wf = [c for c in good if all(is_wf(c["svcs"][o["s"]]["kind"], o.get("cols")) for o in c["ops"] if o["t"] == "req")]
+    wf = [c for c in good if all(is_wf(c["svcs"][o["s"]]["kind"], o.get("cols")) for o in c["ops"] if is_req(o))]
     return {"cases": cases, "good": good, "broken": broken, "mism": mism, "v1": v1, "v2": v2,
             "byid": {c["id"]: c for c in cases}, "wf": wf, "notfresh": [c["id"] for c in wf if c["id"] not in FRESH]}
 
